@@ -212,6 +212,18 @@ pub fn eviction(kind: &str, n: usize, rng: &mut SmallRng) -> Vec<Program> {
             }
             clients.push(cl);
         }
+        if with_expired && rng.gen_bool(0.5) {
+            // the clock as one more client: a second (or two) passes somewhere in the middle of the other commands,
+            // so that records stored with a short TTL during the run expire during the run
+            for cl in clients.iter_mut() {
+                for c in cl.iter_mut() {
+                    if c.op == "set" && rng.gen_bool(0.5) {
+                        c.ttl = 1;
+                    }
+                }
+            }
+            clients.push(vec![tick(5 + rng.gen_range(1..=2))]);
+        }
         out.push(Program { layer: "memc".into(), name: format!("{}-evict-{}", kind, x), kind: kind.into(), init: "mixed".into(), policy: "random".into(),
             mem_limit: limit, keys: keys.clone(), setup, clients, post_tick: 0 });
     }
